@@ -176,8 +176,8 @@ MIN_EVALS = {
         'third-call==first-call(transform)': 900, 'third-call==first-call(transform_w_scipy_fft)': 900,
         'third-call==first-call(itransform)': 1900, 'third-call==first-call(get_max_tifq_vals_freq)': 1900,
         'third-call==first-call(get_max_stockwell_freq)': 1900,
-        'refilled-argument.third==first(transform)': 200, 'refilled-argument.third==first(transform_w_scipy_fft)': 200,
-        'refilled-argument.third==first(itransform)': 400, 'refilled-argument.third==first(get_max_tifq_vals_freq)': 400,
+        'refilled-argument.third==first(transform)': 300, 'refilled-argument.third==first(transform_w_scipy_fft)': 300,
+        'refilled-argument.third==first(itransform)': 600, 'refilled-argument.third==first(get_max_tifq_vals_freq)': 600,
         'protocols.trace-of-own-values[copy]': 1600, 'protocols.trace-of-own-values[deepcopy]': 1600,
         'protocols.trace-of-own-values[pickle]': 1600,
         'after-assignment.trace-of-own-values': 700, 'after-refused-operation.trace-of-own-values': 600,
